@@ -66,6 +66,7 @@ type frame struct {
 	caller    *frame
 	visits    []int32
 	tolerant  bool
+	phisDone  bool
 	status    int // 0 running, 1 panic, 2 complete
 }
 
@@ -275,7 +276,9 @@ func (fr *frame) runFrame() {
 			fr.p.finish(&Outcome{Kind: "unwind", Msg: fmt.Sprintf("block %d of %s visited more than %d times", b.Index, fr.info.name, fr.p.P.cfg.MaxBlockVisits)})
 		}
 		// phis
-		if fr.prev != nil {
+		if fr.phisDone {
+			fr.phisDone = false
+		} else if fr.prev != nil {
 			var phis []Value
 			var idx int
 			for i, pr := range b.Preds {
@@ -502,6 +505,9 @@ func (fr *frame) visit(instr ssa.Instruction) continuation {
 		fr.store(fr.get(in.Addr), fr.get(in.Val))
 	case *ssa.If:
 		c := termOf(fr.get(in.Cond))
+		if !c.IsConst() && p.spec == 0 && fr.tryMerge(in, c) {
+			return kJump
+		}
 		succ := 1
 		if p.branch(c) {
 			succ = 0
